@@ -101,15 +101,66 @@ def impl_line(obj, m, x):
         return ["EXC:" + type(ex).__name__]
 
 
+def _vals(got):
+    vals = []
+    for t in got.split(" "):
+        vals += b2fs(t)
+    return vals
+
+
+# position of the scalar input (as a bit pattern) in an op line, for the ill-conditioning retry
+XPOS = {"tree": 2, "tdist": 4}
+
+
+def input_tolerance_ok(line, want):
+    """An ill-conditioned point (e.g. Tanh.inverse at 1 - ulp, or a branch test `|y| >= tanh(max_val)` whose threshold libm and XLA round
+    differently): the implementation's value is accepted if it lies within the range the MODEL spans when its input moves by <= 4 ulps
+    (widened by TOL), or if the model is non-finite on a neighbour.  Differences of that size are rounding, not a different function."""
+    toks = line.split(" ")
+    pos = XPOS.get(toks[0])
+    if pos is None or any(isinstance(w, str) for w in want):
+        return False
+    x = vlib.b2f(int(toks[pos]))
+    if not math.isfinite(x):
+        return False
+    nb, lo, hi = [], x, x
+    for _ in range(4):
+        lo, hi = float(np.nextafter(lo, -np.inf)), float(np.nextafter(hi, np.inf))
+        nb += [lo, hi]
+    outs = vlib.run_model([" ".join(toks[:pos] + [str(f2b(v))] + toks[pos + 1:]) for v in [x] + nb])
+    cols = None
+    for o in outs:
+        if o.startswith("ERR"):
+            continue
+        v = _vals(o)
+        if len(v) != len(want):
+            return False
+        cols = [[a] for a in v] if cols is None else [cl + [a] for cl, a in zip(cols, v)]
+    if cols is None:
+        return False
+    for cl, w in zip(cols, want):
+        if any(not math.isfinite(a) for a in cl):
+            continue
+        if not math.isfinite(w):
+            return False
+        a, b = min(cl), max(cl)
+        slack = TOL["atol"] + TOL["rtol"] * max(abs(a), abs(b), abs(w))
+        if not (a - slack <= w <= b + slack):
+            return False
+    return True
+
+
 def compare(c, name, line, got, want, info):
-    toks = got.split(" ")
     if got.startswith("ERR"):
         c.mismatch(name, op=line, model=got, impl=want, **info)
         return False
-    vals = []
-    for t in toks:
-        vals += b2fs(t)
+    vals = _vals(got)
     if len(vals) != len(want) or any(isinstance(w, str) for w in want) or not vlib.allclose(vals, want, **TOL):
+        if len(vals) == len(want) and getattr(c, "dist", {}).get("input-tolerance-tried", 0) < 40:
+            c.count("input-tolerance-tried")
+            if input_tolerance_ok(line, want):
+                c.count("input-tolerance-used")
+                return True
         c.mismatch(name, op=line, model=vals, impl=want, **info)
         return False
     return True
